@@ -222,6 +222,9 @@ class Scheduler(object):
         self.stats = W.collections.Counter()
         self.granularity = granularity
         self._locks = []
+        self._frames = set()
+        self.close_began = []       # (tid, step) of every close() call
+        self.state_created = []     # steps at which a State() was finished
         self.stall = None
         self.stalled_on = None     # index of the socket whose write stalled
         self.freezes = {}           # step -> (tid, microseconds)
@@ -316,6 +319,17 @@ class Scheduler(object):
         if event == 'line' and self.active:
             self.yield_point((os.path.basename(frame.f_code.co_filename),
                               frame.f_lineno))
+            qn = getattr(frame.f_code, 'co_qualname', frame.f_code.co_name)
+            if qn == 'WebSocket.close' and id(frame) not in self._frames:
+                # the step at which the first line of a close() call runs
+                self._frames.add(id(frame))
+                me = self.current
+                self.close_began.append((me.tid if me else None, self.steps))
+        elif event == 'return' and self.active and getattr(
+                frame.f_code, 'co_qualname', '') == 'WebSocket.State.__init__':
+            # a new connection state exists from here on (it is assigned
+            # to WebSocket.state before the next line of that thread)
+            self.state_created.append(self.steps)
         return self._local_trace
 
     # -- scheduling
